@@ -97,6 +97,9 @@ void concat(const double * in, double * out)
   vm::store(a0.end(), out);
   *out++ = a.t_max();
   *out++ = static_cast<double>(a.size());
+  vm::store(a.end(), out);
+  vm::store(b.end(), out);
+  vm::store(b.start(), out);
 }
 template<typename G, int N>
 void arclength(const double * in, double * out)
